@@ -428,13 +428,52 @@ def splice_table(rep, k=2):
     D = Lin.var("D")
     at.fact_lt(Lin.num(0), D)
 
+    T0, S0, D0 = Lin.var("T0"), Lin.var("S0"), Lin.var("D0")  # the requested times / the whole segment, before alignment
+    z0, z1 = Lin.var("z0"), Lin.var("z1")
+
     def code(I, mode):
         tg, objs = build_tg(I, [("interval", "W", ents), ("point", "P", oth)], m, M)
         log = []
-        audio = MockObj({"insert": PyFunc(lambda I_, t, fr: log.append(("insert", t, fr))), "deleteSegment": PyFunc(lambda I_, a_, b_: log.append(("delete", a_, b_)))})
-        seg = MockObj({"duration": D, "frames": "SEGFRAMES"})
-        start, stop = (S, T) if mode == "replace" else (T, None)
-        res = I.call_function(fn, [audio, seg, tg, "W", label_var("NEW"), start, stop, False], {})
+        aligned = mode.startswith("aligned")
+
+        def crossing(I_, t):
+            # the search is decided by Z-loop / Z-crossing; here it is a function of its argument
+            if isinstance(t, Lin) and t.same(T0):
+                return T
+            if isinstance(t, Lin) and t.same(S0):
+                return S
+            return Lin.var("BADZ")
+
+        def seg_crossing(I_, t):
+            t = I_.num(t)
+            if t.is_const() and t.const == 0:
+                return z0
+            if t.same(D0):
+                return z1
+            return Lin.var("BADZ")
+
+        def subwav(I_, a_, b_):
+            if isinstance(a_, Lin) and a_.same(z0) and isinstance(b_, Lin) and b_.same(z1):
+                return MockObj({"duration": D, "frames": "SEGFRAMES"})
+            return MockObj({"duration": Lin.var("BADD"), "frames": "BADFRAMES"})
+        audio = MockObj({"insert": PyFunc(lambda I_, t, fr: log.append(("insert", t, fr))), "deleteSegment": PyFunc(lambda I_, a_, b_: log.append(("delete", a_, b_))),
+                         "findNearestZeroCrossing": PyFunc(crossing)})
+        if aligned:
+            seg = MockObj({"duration": D0, "frames": "WHOLEFRAMES", "findNearestZeroCrossing": PyFunc(seg_crossing), "getSubwav": PyFunc(subwav)})
+            shift_fn = idx.get("praatio_scripts:_shiftTimes")
+
+            def shift(I_, args, kwargs):
+                # _shiftTimes is decided by S-shiftTimes; here it is recorded (the textgrid goes on unchanged, so that the
+                # remaining edits are compared on the same entries)
+                log.append(("shift", args[1], args[2]))
+                return I_.call_value(I_.getattr(args[0], "new"), [], {})
+            I.overrides = dict(I.overrides)
+            I.overrides[shift_fn.qual] = shift
+            start, stop = (S0, T0) if mode == "aligned-replace" else (T0, None)
+        else:
+            seg = MockObj({"duration": D, "frames": "SEGFRAMES"})
+            start, stop = (S, T) if mode == "replace" else (T, None)
+        res = I.call_function(fn, [audio, seg, tg, "W", label_var("NEW"), start, stop, aligned], {})
         out = read_tg(I, res.items[1])
         out["audio"] = log
         out["same_audio"] = res.items[0] is audio
@@ -449,13 +488,17 @@ def splice_table(rep, k=2):
         w = specs.insert_space_interval(O, ents, m, M, T, D, "stretch")
         w = specs.insert_entry_interval(O, w["entries"], w["min"], w["max"], (T, T + D, label_var("NEW")), "error", "warning")
         p = specs.insert_space_point(O, oth, m, M, T, D)
-        if mode == "replace":
+        if mode.endswith("replace"):
             w = specs.erase_interval(O, w["entries"], w["min"], w["max"], S, T, "truncate", True)
             p = specs.erase_point(O, p["entries"], p["min"], p["max"], S, T, True)
             audio = [("insert", T, "SEGFRAMES"), ("delete", S, T)]
         else:
             audio = [("insert", T, "SEGFRAMES")]
-        return {"W": w, "P": p, "audio": audio, "max": (M + D - (T - S)) if mode == "replace" else M + D}
+        if mode == "aligned":
+            audio = [("shift", T0, T)] + audio  # the text boundary at the requested time moves to the crossing first
+        elif mode == "aligned-replace":
+            audio = [("shift", S0, S), ("shift", T0, T)] + audio
+        return {"W": w, "P": p, "audio": audio, "max": (M + D - (T - S)) if mode.endswith("replace") else M + D}
 
     def eq(I, g, w):
         if not g["same_audio"] or not g["tg_is_copy"]:
@@ -473,8 +516,8 @@ def splice_table(rep, k=2):
         if len(news) != 1:
             return "expected exactly one new interval with the given label, found %d" % len(news)
         return None
-    simple(rep, "S-splice", fn, at, ["insert", "replace"], code, spec,
-           "audioSplice(alignToZeroCrossing=False) on {%d intervals, 1 point}: insertion at T, optional replaced region (S,T), segment duration D>0" % k, eq)
+    simple(rep, "S-splice", fn, at, ["insert", "replace", "aligned", "aligned-replace"], code, spec,
+           "audioSplice on {%d intervals, 1 point}: insertion at T, optional replaced region (S,T), segment duration D>0; with alignToZeroCrossing the crossings found for the requested times are T, S and the segment is cut to its own crossings (the search and _shiftTimes abstracted to recorded calls)" % k, eq)
 
 
 def run(rep, tier):
@@ -483,7 +526,7 @@ def run(rep, tier):
     rep.rule("Z-crossing", "_findNextZeroCrossing on generic samples: the returned index is inside the window and is a zero sample or a sample whose sign differs from a neighbour; None iff there is no such sample")
     rep.rule("S-shiftTimes / S-boundaries / S-splice", "text edits that accompany audio edits: _shiftTimes moves exactly the boundaries at the old time; tgBoundariesToZeroCrossings maps every timestamp through the search keeping order, counts and labels; audioSplice pairs audio.insert/deleteSegment with insertSpace/eraseRegion at the same times and inserts exactly one new interval")
     rep.not_decided.append("that the returned time falls on a sample position and lies in [0, duration] for every sample array (index arithmetic across window boundaries)")
-    rep.not_decided.append("audioSplice with alignToZeroCrossing=True end to end (its parts -- the search loop, _shiftTimes -- are decided separately)")
+    rep.not_decided.append("audioSplice with alignToZeroCrossing=True end to end on sample data: the wiring is decided (every requested time is replaced by its crossing, the text boundaries are shifted to it first, the segment is cut to its own crossings, audio and text are edited at the aligned times), with the search and _shiftTimes abstracted to the calls they receive (decided separately by Z-loop / Z-crossing / S-shiftTimes)")
     from . import audiobuf
     loop_iteration_table(rep)
     helper_tables(rep)
